@@ -55,6 +55,7 @@ func genC10(t *rapid.T) c10Case {
 		c.Mandatory = append(c.Mandatory, g.GenClauseMixed(fmt.Sprintf("m%d", i), bq.ClauseOpts{}))
 	}
 	no := 1 + gen.Uniform(t, 2, "noptional")
+	ground := false
 	mandatoryNames := map[string]bool{}
 	for _, b := range bq.AllBindings(c.Mandatory) {
 		mandatoryNames[b] = true
@@ -69,6 +70,25 @@ func genC10(t *rapid.T) c10Case {
 					oc.S.Binding = gen.Pick(t, bs, "nsb")
 				}
 			}
+		case 1, 2: // fully specified, no alias: from a stored triple (temporal ones first) or a near miss
+			var pool []model.TripleSpec
+			for _, tr := range visible {
+				if tr.P.Anchor != nil {
+					pool = append(pool, tr)
+				}
+			}
+			if len(pool) == 0 || gen.Maybe(t, 25, "ground-any") {
+				pool = visible
+			}
+			if len(pool) == 0 {
+				pool = []model.TripleSpec{u.GenTriple(t, "ground-free")}
+			}
+			tr := gen.Pick(t, pool, "ground")
+			if gen.Maybe(t, 25, "ground-miss") {
+				tr.S = gen.Pick(t, u.Nodes, "ground-s") // most likely not stored
+			}
+			oc = groundClause(tr)
+			ground = true
 		default:
 			oc = g.GenClauseMixed(fmt.Sprintf("o%d", i), bq.ClauseOpts{})
 		}
@@ -102,8 +122,27 @@ func genC10(t *rapid.T) c10Case {
 		c.Mandatory, c.Optional = cs[:len(c.Mandatory)], cs[len(c.Mandatory):]
 		c.Excluded = append(c.Excluded, "KF-C03-BINDINGLESS-CLAUSE")
 	}
-	if gen.Maybe(t, 15, "hasglobal") {
+	if gen.Maybe(t, 15, "hasglobal") || (ground && gen.Maybe(t, 60, "hasglobal-ground")) {
 		c.Global = g.GenGlobal()
+	}
+	return c
+}
+
+// groundClause is the clause that names exactly the triple tr.
+func groundClause(tr model.TripleSpec) bq.Clause {
+	var c bq.Clause
+	s, p := tr.S, tr.P
+	c.S.Node, c.P.Pred = &s, &p
+	switch {
+	case tr.O.N != nil:
+		n := *tr.O.N
+		c.O.Node = &n
+	case tr.O.P != nil:
+		op := *tr.O.P
+		c.O.Pred = &op
+	default:
+		l := *tr.O.L
+		c.O.Lit = &l
 	}
 	return c
 }
